@@ -224,6 +224,19 @@ def standard_main(pid, tier, level, theorems, imports, build_streams, known_matc
         broken, info = prepare(res, theorems, imports)
         rng = random.Random(seed() * 1000003 + int(pid[1:]))
         streams = build_streams(rng, tier)
+        # minimised past failures first: lines on which a stored seeded change was caught (tools/harvest_corpus.py)
+        reg = {}
+        rp = os.path.join(VERIF, "corpus_regress", f"{pid}.jsonl")
+        if os.path.exists(rp):
+            for l in open(rp):
+                if l.strip():
+                    e = json.loads(l); reg.setdefault(e["stream"], []).append(e["line"])
+        for st in streams:
+            have = set(st.lines)
+            extra = [l for l in dict.fromkeys(reg.get(st.name, [])) if l not in have]
+            if extra:
+                st.lines = extra + list(st.lines)
+                res.cov.setdefault("regression_corpus_lines", {})[st.name] = len(extra)
         if os.environ.get("VERIF_NO_POLLUTION") != "1":
             streams = streams + polluted_variants(streams, random.Random(seed() * 7919 + int(pid[1:])), tier)
         run_streams(res, streams, broken, known_match)
